@@ -575,6 +575,10 @@ class ResultQuantifier(CanBehaveLikeAVariable[T], ABC):
         if self._id_ in sources:
             yield OperationResult(sources, False, self)
             return
+        if parent is not None:
+            # a rule tree inside an enclosing query is evaluated once for every binding that reaches it: what it
+            # concluded for belongs to one of these evaluations
+            self._reset_conclusion_deduplication_()
         result_count = 0
         values = self._child_._evaluate__(sources, parent=self)
         for value in values:
@@ -703,6 +707,10 @@ class UnificationDict(UserDict):
     """
 
     def __getitem__(self, key: CanBehaveLikeAVariable[T]) -> T:
+        for selected, value in self.data.items():
+            if selected is key:
+                # the row is keyed by the selected expression itself (a nested query is, not its inner variable)
+                return value.value
         key = key._id_expression_map_[key._var_._id_]
         return super().__getitem__(key).value
 
